@@ -393,6 +393,103 @@ def r05_fg(prog: Program, chk: Check) -> None:
         )
 
 
+# ------------------------------------------------------------------- R05.h
+def _preprocess_chunk(args):
+    part, nparts, max_params, stride = args
+    from ..model import AnchorError as _AE
+    from ..model import Program as _P
+    from . import binder_model as bmod
+    from . import preprocess_model as pmod
+
+    model = pmod.PreprocessModel(_P())
+    classes: Dict[str, Dict[str, object]] = {}
+    unsupported = []
+    n = 0
+
+    def note(key: str, bad: bool, d) -> None:
+        c = classes.setdefault(key, {"n": 0, "bad": 0, "witness": []})
+        c["n"] += 1  # type: ignore[operator]
+        if bad:
+            c["bad"] += 1  # type: ignore[operator]
+            w = c["witness"]
+            w.append(d)  # type: ignore[union-attr]
+            w.sort(key=lambda x: (len(x["def"]) + len(x["call"]), repr(x)))  # type: ignore[union-attr]
+            del w[4:]  # type: ignore[arg-type]
+
+    for idx, sig in enumerate(bmod.signatures(max_params)):
+        if idx % nparts != part:
+            continue
+        names = [f"p{i}" for i, (k, d) in enumerate(sig) if k not in (bmod.VP, bmod.VK)]
+        for j, call in enumerate(pmod.calls(names)):
+            if stride > 1 and (idx + j) % stride:
+                continue
+            ref = pmod.cpython_outcome(sig, call)
+            if ref is None:
+                continue
+            n += 1
+            d = {"def": pmod.def_source(sig), "call": pmod.call_source(call)}
+            try:
+                r = model.run(sig, call)
+            except _AE as e:
+                unsupported.append({**d, "why": str(e)[:300]})
+                continue
+            if r[0] == "crash":
+                note("no-crash", True, {**d, "error": r[1]})
+                continue
+            note("no-crash", False, d)
+            feats = []
+            if any(i[0] == "star" for i in call):
+                feats.append("*tuple")
+            if any(i[0] == "dstar" for i in call):
+                feats.append("**dict")
+            fk = "+".join(feats) or "plain"
+            if ref == "TypeError":
+                note(f"a call CPython rejects at bind time is diagnosed::{fk}", r[0] != "reject", {**d, "messages": r[1]})
+            else:
+                note(f"a call CPython binds is not diagnosed::{fk}", r[0] != "accept", {**d, "messages": r[1]})
+    return n, classes, unsupported
+
+
+def r05_h(prog: Program, chk: Check) -> None:
+    import multiprocessing as mp
+    import os as _os
+
+    chk.rule(
+        "R05.h",
+        "the whole argument pipeline as a finite model against CPython's own binder: preprocess_args (with _preprocess_kwargs_no_mvv, _preprocess_kwargs_kv_pairs, "
+        "replace_known_sequence_value) followed by Signature.bind_arguments is interpreted on calls written with positional arguments, keyword arguments, *tuple-literals and "
+        "one or two **dict-literals (also with keys that repeat an explicit keyword, with equal values) for every signature of up to 2 (thorough: 3) parameters; the same def is "
+        "created and the same call expression evaluated by CPython: diagnosed exactly when CPython raises TypeError while binding",
+        floor=4,
+    )
+    selftest = bool(_os.environ.get("VERIF_SELFTEST"))
+    procs = 2 if selftest else min(16, _os.cpu_count() or 1)
+    max_params = 3 if chk.tier == "thorough" and not selftest else 2
+    stride = 8 if selftest else 4 if max_params == 3 else 3
+    with mp.get_context("fork").Pool(procs) as pl:
+        results = pl.map(_preprocess_chunk, [(i, procs * 2, max_params, stride) for i in range(procs * 2)])
+    total = 0
+    merged: Dict[str, Dict[str, object]] = {}
+    unsupported = []
+    for n, classes, uns in results:
+        total += n
+        unsupported += uns
+        for k, c in classes.items():
+            m = merged.setdefault(k, {"n": 0, "bad": 0, "witness": []})
+            m["n"] += c["n"]  # type: ignore[operator]
+            m["bad"] += c["bad"]  # type: ignore[operator]
+            m["witness"] = sorted(list(m["witness"]) + list(c["witness"]), key=lambda x: (len(x["def"]) + len(x["call"]), repr(x)))[:4]  # type: ignore[arg-type]
+    chk.model_evaluations += total
+    chk.analysed["preprocess_model"] = {"calls": total, "not_modelled": len(unsupported)}
+    site = prog.site("signature", prog.func("signature", "preprocess_args"))
+    for k, c in sorted(merged.items()):
+        wit = c["witness"]
+        chk.ob("R05.h", f"signature::pipeline-model::{k}", int(c["bad"]) == 0, site,  # type: ignore[arg-type]
+               f"{c['n']} calls, {c['bad']} failing" + (f"; smallest: {wit[0]}" if wit else ""), witness=wit)  # type: ignore[index]
+    if unsupported:
+        raise AnchorError(f"{len(unsupported)} calls cannot be modelled; first: {unsupported[0]}")
+
+
 def run(prog: Program, chk: Check) -> None:
     b = Binder(prog)
     guard(chk, r05_a, prog, chk, b)
@@ -401,6 +498,9 @@ def run(prog: Program, chk: Check) -> None:
     guard(chk, r05_d, prog, chk)
     guard(chk, r05_e, prog, chk, b)
     guard(chk, r05_fg, prog, chk)
+    guard(chk, r05_h, prog, chk)
+
+
 def run_thorough(prog: Program, chk: Check) -> None:
     """Validation of the *reference* (not of pyanalyze): the table-driven
     cpython_outcome() is compared with the interpreter's own argument binding on
